@@ -146,10 +146,15 @@ def set_owner_process(uid, gid, initgroups=False):
                 username = get_username(uid)
             except KeyError:
                 initgroups = False
+        else:
+            # no user whose groups could be looked up
+            initgroups = False
 
+        # initgroups() only sets the supplementary groups: the real,
+        # effective and saved group ids still have to be changed
         if initgroups:
             os.initgroups(username, gid)
-        elif gid != os.getgid():
+        if gid != os.getgid():
             os.setgid(gid)
 
     if uid and uid != os.getuid():
